@@ -9,9 +9,13 @@ import (
 var registry = map[string]func() *check.Property{
 	"C02": C02,
 	"C03": C03,
+	"C05": C05,
 	"C07": C07,
+	"C08": C08,
 	"C09": C09,
 	"C12": C12,
+	"C14": C14,
+	"C15": C15,
 }
 
 func ByID(id string) *check.Property {
